@@ -39,22 +39,26 @@ def run_modes(chk, data, out, tag, nrun):
         ptol = (1e-3 * quantum + 8 * eps * BOX)[:, None] if n else 0
         vtol = 8 * eps * np.abs(evel) + 1e-300
         ref = {}
-        for pm, vm in itertools.product(('alloc', 'supplied', 'skip'), repeat=2):
+        for pm, vm in itertools.product(('alloc', 'supplied', 'strided', 'skip'), repeat=2):
             if pm == 'skip' and vm == 'skip':
                 continue
-            posout = {'alloc': None, 'supplied': np.full((len(data), 3), np.nan, dtype=dt), 'skip': False}[pm]
-            velout = {'alloc': None, 'supplied': np.full((len(data), 3), np.nan, dtype=dt), 'skip': False}[vm]
+            if 'strided' in (pm, vm) and len(data) > 5000:
+                continue
+            # 'strided': a preallocated output that is a non-contiguous view (columns of a wider buffer), as a caller filling a structured table would pass
+            sbuf = np.full((len(data), 7), np.nan, dtype=dt)
+            posout = {'alloc': None, 'supplied': np.full((len(data), 3), np.nan, dtype=dt), 'strided': sbuf[:, 0:3], 'skip': False}[pm]
+            velout = {'alloc': None, 'supplied': np.full((len(data), 3), np.nan, dtype=dt), 'strided': sbuf[:, 4:7], 'skip': False}[vm]
             r = unpack_pack9(data.copy(), BOX, VELZ, float_dtype=dt, posout=posout, velout=velout)
             nrun[0] += 1
-            p = r[0] if pm == 'alloc' else (posout[:r[0]] if pm == 'supplied' else None)
-            v = r[1] if vm == 'alloc' else (velout[:r[1]] if vm == 'supplied' else None)
+            p = r[0] if pm == 'alloc' else (posout[:r[0]] if pm in ('supplied', 'strided') else None)
+            v = r[1] if vm == 'alloc' else (velout[:r[1]] if vm in ('supplied', 'strided') else None)
             for nm, a in (('pos', p), ('vel', v)):
                 if a is None:
                     continue
                 if len(a) != n:
                     chk.violation(f'{tag}-count', f'{len(data)} records with {n} particles: {nm} has {len(a)} rows (mode {pm},{vm})', dict(data=data.tolist()))
                     return
-            if pm == 'supplied' and not np.all(np.isnan(posout[n:])):
+            if pm in ('supplied', 'strided') and not np.all(np.isnan(posout[n:])):
                 chk.violation(f'{tag}-writes-beyond-count', 'rows beyond the particle count were written in the supplied pos array', dict(data=data.tolist()))
             if p is not None and n:
                 bad = ~(np.abs(p.astype(np.float64) - epos) <= ptol)
